@@ -2,6 +2,10 @@ import WsVerif.Model.Stats
 import WsVerif.Lemmas.Sums
 import WsVerif.Model.Consts
 import WsVerif.Gen.Lits
+import WsVerif.Gen.NpKernels
+import WsVerif.Model.NpTwins
+import WsVerif.Lemmas.NpBridge
+import WsVerif.Model.Dispersion
 /-!
 # C01 — integrated parameters equal their defining integrals
 
@@ -253,5 +257,90 @@ theorem dd_seam (a b δ : ℚ) (rest : Vec) (hδ : 0 ≤ δ) (hδ2 : δ ≤ 180)
   show minR (absR (b - a)) (360 - absR (b - a)) = δ
   unfold minR
   rcases h with h | h <;> rw [h] <;> split <;> linarith
+
+/-! ## T-tier: regenerated kernels
+
+`Gen/NpKernels.lean` is regenerated on every run by `harness/translate_np.py` from the *whole bodies* of
+`npstats.hs`, `npstats.mom1`, `npstats.dm`, `utils.wavenuma`, `utils.celerity`, `utils.wavelen` (vector grammar:
+slices, elementwise arithmetic, row sums, `if`/`else`, unrolled literal loops).  The theorems below identify each
+generated definition with the hand-written model for ALL inputs, so a change of a slice, an operator, a comparison,
+a literal or the staging in the repository breaks an obligation of C01.  Transcendentals: the final `4·sqrt` of
+`hs` is stripped structurally; the sin/cos arrays of `mom1` are oracle tables whose defining argument is itself
+regenerated (`npMom1_*_arg`); `** 0.5` in `wavenuma` is an oracle function parameter. -/
+
+/-- `npstats.hs` (radicand): trapezoid over `|f[i+1]−f[i]|` of `E`, plus the tail term -/
+theorem gen_npHs_eq (e : Mat) (f : Vec) (dir : Option Vec) (tail : Bool) :
+    Gen.npHsE e f dir tail = Stats.npHsE Consts.thr Consts.quarter tail f (npE dir e) := by
+  unfold Stats.npHsE
+  rw [trapz_eq_slices, npDf_eq_slices]
+  rcases dir with _ | _ | ⟨a, _ | ⟨b, rest⟩⟩ <;>
+    simp only [Gen.npHsE, npE, oned, getR, Consts.thr, Consts.quarter, List.map_map, Function.comp_def,
+      List.length_nil, List.length_cons, List.getD_cons_zero, List.getD_cons_succ, gt_iff_lt] <;>
+    cases tail <;> by_cases h : (5998794703657501 : ℚ) / 18014398509481984 < lastD f <;> simp [h]
+
+/-- non-vacuity of the generated `hs`: 3×2 spectrum, `Δθ = |10 − 350| = 340`, tail active (0.5 > 0.333) -/
+example : Gen.npHsE [[1, 2], [0, 3], [4, 1]] [1/8, 1/4, 1/2] (some [350, 10]) true =
+    (1/2) * ((1/8) * (340 * 3 + 340 * 3) + (1/4) * (340 * 5 + 340 * 3)) + (1/4) * (340 * 5) * (1/2) := by
+  decide +kernel
+
+theorem gen_npHs_factor : Gen.npHsFactor = 4 := by decide +kernel
+
+/-- `npstats.mom1` on at least two directions (fewer: `dir[1]` raises IndexError in the code) -/
+theorem gen_mom1_eq (e : Mat) (a b : ℚ) (rest s c : Vec) (theta : ℚ) :
+    Gen.npMom1 e (a :: b :: rest) theta c s = Stats.npMom1 (a :: b :: rest) s c e := by
+  simp only [Gen.npMom1, Stats.npMom1, mom1_rows, npDd, getR, List.getD_cons_zero, List.getD_cons_succ]
+
+theorem gen_mom1_tables :
+    Gen.npMom1_cp_fn = "np.cos(np.radians(·))" ∧ Gen.npMom1_sp_fn = "np.sin(np.radians(·))" ∧
+    Gen.npMom1_theta_default = 90 := by decide +kernel
+
+theorem gen_mom1_arg_eq (d : ℚ) :
+    Gen.npMom1_cp_arg Gen.npMom1_theta_default d = Stats.momArg d ∧
+    Gen.npMom1_sp_arg Gen.npMom1_theta_default d = Stats.momArg d := by
+  unfold Gen.npMom1_cp_arg Gen.npMom1_sp_arg Gen.npMom1_theta_default Stats.momArg
+  constructor <;> ring
+
+theorem gen_dm_eq (e : Mat) (a b : ℚ) (rest s c : Vec) :
+    Gen.npDmVec e (a :: b :: rest) c s = Stats.npDmVec (a :: b :: rest) s c e := by
+  simp only [Gen.npDmVec, gen_mom1_eq, Stats.npMom1, Stats.npDmVec]
+
+theorem gen_dm_post_eq (pi a : ℚ) : Gen.npDmPost pi a = Stats.dirOfAtan pi a := rfl
+
+theorem gen_wavenuma_poly_eq (x : ℚ) :
+    Gen.wavenumaA x = Dispersion.polyA x ∧
+    Dispersion.polyA x = 1 + Dispersion.powSum (Dispersion.chenD.drop 1) 1 x := by
+  constructor
+  · simp only [Gen.wavenumaA, Dispersion.polyA, Dispersion.chenD, Dispersion.horner, getR, List.getD_cons_zero,
+      List.getD_cons_succ, List.drop_succ_cons, List.drop_zero]
+    ring
+  · simp only [Dispersion.polyA, Dispersion.chenD, Dispersion.horner, Dispersion.powSum, List.drop_succ_cons, List.drop_zero]
+    ring
+
+example : Gen.wavenumaA 1 = 1 + (5874495353942075 : ℚ) / 9007199254740992 + 8326254991082573 / 18014398509481984
+    + 3112888062438487 / 36028797018963968 + 607985949695017 / 9007199254740992 := by decide +kernel
+
+theorem gen_wavenuma_k0h_eq (pi f h : ℚ) : Gen.wavenumaK0h pi f h = Dispersion.k0h pi f h := rfl
+
+theorem gen_wavenuma_eq (pi : ℚ) (sqrt : ℚ → ℚ) (f h : ℚ) :
+    Gen.wavenuma pi sqrt f h = Dispersion.wavenuma pi sqrt f h := by
+  have hA := (gen_wavenuma_poly_eq (Dispersion.k0h pi f h)).1
+  unfold Dispersion.wavenuma
+  rw [← hA]
+  rfl
+
+theorem gen_celerity_eq (pi : ℚ) (sqrt : ℚ → ℚ) (f : ℚ) (depth : Option ℚ) :
+    Gen.celerity pi sqrt f depth = Dispersion.celerity pi sqrt f depth := by
+  cases depth with
+  | none => rfl
+  | some h => simp only [Gen.celerity, Dispersion.celerity, gen_wavenuma_eq]
+
+theorem gen_wavelen_eq (pi : ℚ) (sqrt : ℚ → ℚ) (f : ℚ) (depth : Option ℚ) :
+    Gen.wavelen pi sqrt f depth = Dispersion.wavelen pi sqrt f depth := by
+  cases depth with
+  | none => rfl
+  | some h => simp only [Gen.wavelen, Dispersion.wavelen, gen_wavenuma_eq]
+
+theorem gen_deep_eq (pi : ℚ) (sqrt : ℚ → ℚ) (f : ℚ) :
+    Gen.celerity pi sqrt f none = Consts.deep / f ∧ Gen.wavelen pi sqrt f none = Consts.deep / f ^ 2 := ⟨rfl, rfl⟩
 
 end WS.C01
